@@ -74,6 +74,10 @@ MUTANTS = [
      'edits': [(MEM, "mem::size_of_val(&obj.data)", "mem::size_of_val(&obj.colour)")]},
     {'name': 'G4 range cache never evicts', 'prop': 'C16', 'expect': 'G4 / Vm.range_cache grows',
      'edits': [(VM, "        if self.range_cache.len() >= RANGE_CACHE_SIZE {", "        if self.range_cache.len() >= RANGE_CACHE_SIZE && false {")]},
+    {'name': 'G4 range cache looks at its oldest entry without evicting it', 'prop': 'C16', 'expect': 'G4 / Vm.range_cache grows',
+     'edits': [(VM, "            self.range_cache.remove(0);", "            let _ = self.range_cache.first();")]},
+    {'name': 'G4 range cache evicts from another list', 'prop': 'C16', 'expect': 'G4 / Vm.range_cache grows',
+     'edits': [(VM, "            self.range_cache.remove(0);", "            self.working_class_def.take();")]},
     {'name': 'G4 new rooted memo table on the Vm', 'prop': 'C16', 'expect': 'G4 / Vm.tuple_memo grows',
      'edits': [(VM, "    handling_exception: bool,\n}", "    handling_exception: bool,\n    tuple_memo: Vec<Root<ObjTuple>>,\n}"),
                (VM, "            handling_exception: false,\n        };", "            handling_exception: false,\n            tuple_memo: Vec::new(),\n        };"),
